@@ -97,7 +97,7 @@ func (r *simReader) Read(p []byte) (int, error) {
 }
 
 type WriteFault struct {
-	Kind string `json:"kind,omitempty"` // "", "err" (call i fails), "short" (call i is short), "full" (device holds At bytes)
+	Kind string `json:"kind,omitempty"` // "", "err" (call i and all later ones fail), "short" (call i is short, later ones fail), "err1" / "short1" (transient: only call i), "full" (device holds At bytes)
 	At   int    `json:"at,omitempty"`
 }
 
@@ -126,6 +126,18 @@ func (w *simWriter) Write(p []byte) (int, error) {
 			w.fired = true
 			w.done = errInjectedWrite
 			return 0, w.done
+		}
+	case "err1": // transient: this call fails, later calls succeed
+		if i == w.fault.At {
+			w.fired = true
+			return 0, errInjectedWrite
+		}
+	case "short1":
+		if i == w.fault.At {
+			w.fired = true
+			n := len(p) / 2
+			w.buf.Write(p[:n])
+			return n, io.ErrShortWrite
 		}
 	case "short":
 		if i == w.fault.At {
